@@ -43,7 +43,9 @@ _EMPLACE = _compiles(
     "void probe() { phosg::KDTree<phosg::Vector2<int64_t>, int64_t> t; int64_t v = 0; t.emplace(phosg::Vector2<int64_t>(0, 0), v); }\n")
 
 CFG = P(
-    harness=["harness/C13.cc"], harness_deps=["harness/bfs.hh"],
+    harness=["harness/C13.cc", "harness/C13_seq.cc", "harness/C13_seq2.cc", "harness/C13_misc.cc", "harness/C13_pairs1.cc", "harness/C13_pairs2.cc", "harness/C13_pairs3.cc",
+             "harness/C13_pairs4.cc", "harness/C13_pairs5.cc", "harness/C13_pairs6.cc"],
+    harness_deps=["harness/bfs.hh", "harness/C13_gen.hh", "harness/C13_seq.hh", "harness/C13_pairs.hh"],
     srcs=[],
     harness_cxxflags=["-fno-access-control"] + (["-DC13_HAVE_EMPLACE"] if _EMPLACE else []),
     deadline={"quick": 600, "thorough": 3600},
